@@ -421,10 +421,25 @@ func runC16(t *testing.T, spec RunSpec) (res RunResult) {
 						var got []raft.AppendFuture
 						consumerDone := make(chan struct{})
 						sendDone := make(chan struct{})
+						// one time in three the caller gives the pipeline up while responses are still
+						// outstanding (raft does so when replication to that follower stops): it stops
+						// reading after `abandon` futures, waits a little and closes the pipeline
+						abandon := -1
+						if ch.Choose(simrt.SWork, 3) == 1 {
+							abandon = ch.Choose(simrt.SWork, k+1)
+						}
+						abandoned := false
 						simrt.GoTag("pipe-consumer", "", func() {
 							defer close(consumerDone)
 							sending := true
 							for {
+								if abandon >= 0 && len(got) >= abandon {
+									simrt.Sleep("pipe-abandon", time.Duration(1+ch.Choose(simrt.SWork, 20))*time.Millisecond)
+									abandoned = true
+									stats.probe("pipeline_closed_with_responses_outstanding")
+									_ = p.Close()
+									return
+								}
 								var s simrt.Sel
 								var tmo <-chan time.Time
 								if !sending {
@@ -457,7 +472,7 @@ func runC16(t *testing.T, spec RunSpec) (res RunResult) {
 						}
 						close(sendDone)
 						simrt.Recv("pipe-wait", (<-chan struct{})(consumerDone))
-						if len(got) < len(order) {
+						if len(got) < len(order) && !abandoned {
 							stats.Calls["pipeline:future-missing"]++
 						}
 						failedBefore := false
@@ -481,6 +496,17 @@ func runC16(t *testing.T, spec RunSpec) (res RunResult) {
 							}
 						}
 						_ = p.Close()
+						if abandoned {
+							// the next plain RPC to the same peer must get its own response, whatever
+							// the closed pipeline left behind on its connection
+							nonceN++
+							n = nonceN
+							req := genAE(n)
+							sent[n] = &ntSent{nonce: n, kind: "AE", req: req, from: from, to: to}
+							var resp raft.AppendEntriesResponse
+							err := tr.AppendEntries("x", target, req, &resp)
+							check("AE", err, resp.Term, &resp)
+						}
 					}
 					if closeDuring && c == 0 && op == perCaller/2 {
 						stats.fault("transport_closed_during_traffic")
